@@ -134,15 +134,30 @@ def _inv_mass(p):
     return np.sqrt(np.maximum(p[:, 0] ** 2 - np.sum(p[:, 1:] ** 2, axis=1), 0.0))
 
 
-def _kin_report(ps, m0, mi):
-    """max on-shell residual / m0, max |sum E - m0| / m0, max |sum p| / m0, all finite?"""
+_EPS = 2.220446049250313e-16
+
+
+def _kin_report(ps, m0, mi, seq=False):
+    """finite?, max on-shell residual / m0, max |sum E - m0| / m0, max |sum p| / m0.
+
+    seq=True (plain n-body generator, whose sub-systems {k..n} are boosted as a whole): each event's residuals are divided by
+        amp = max(1, 8 eps gamma^2 / 1e-9),  gamma = largest Lorentz factor E/M of the sub-systems {k..n}, 2 <= size < n.
+    Conditioning: a boost computes 1 - beta^2 = 1/gamma^2 by cancellation, so gamma - and with it every boosted component - carries a relative error
+    of about eps*gamma^2/2; sub-systems of MASSLESS daughters can be arbitrarily light (gamma = E/M unbounded; observed 6e-9 at gamma ~ 1e4 for
+    m0 -> 3 massless in weighted generation).  amp is 1 for gamma <= 750, i.e. always when the daughters are massive (gamma <= m0 / sum of two masses)."""
     ps = [np.asarray(p, dtype=np.float64) for p in ps]
     fin = all(np.all(np.isfinite(p)) for p in ps)
     if not fin or not len(ps[0]):
         return fin, 0.0, 0.0, 0.0
-    shell = max(float(np.max(_E_form(p, m))) for p, m in zip(ps, mi)) / m0
+    amp = np.ones(len(ps[0]))
+    if seq:
+        for k in range(1, len(ps) - 1):
+            sub = sum(ps[k:])
+            m2 = np.maximum(sub[:, 0] ** 2 - np.sum(sub[:, 1:] ** 2, axis=1), 1e-300)
+            amp = np.maximum(amp, 8 * _EPS * (sub[:, 0] ** 2 / m2) / 1e-9)
+    shell = max(float(np.max(_E_form(p, m) / amp)) for p, m in zip(ps, mi)) / m0
     tot = sum(ps)
-    return fin, shell, float(np.max(np.abs(tot[:, 0] - m0))) / m0, float(np.max(np.abs(tot[:, 1:]))) / m0
+    return fin, shell, float(np.max(np.abs(tot[:, 0] - m0) / amp)) / m0, float(np.max(np.max(np.abs(tot[:, 1:]), axis=1) / amp)) / m0
 
 
 def _shape_ok(ps, nbody, N):
@@ -228,7 +243,7 @@ def _c10_generator(ctx, exact_part):
                         acc.add("count", False, dict(w, raised=err))
                         continue
                     acc.add("count", _shape_ok(ps, nb, N), dict(w, got_shapes=[list(np.asarray(p).shape) for p in ps], got_dtypes=[str(np.asarray(p).dtype) for p in ps]))
-                    fin, shell, dE, dp = _kin_report(ps, m0, mi)
+                    fin, shell, dE, dp = _kin_report(ps, m0, mi, seq=True)
                     acc.add("finite_on_shell", fin and shell <= TOL_DOUBLE, dict(w, finite=fin, max_on_shell_residual_over_m0=shell))
                     acc.add(cons, fin and dE <= tol and dp <= tol, dict(w, max_dE_over_m0=dE, max_dp_over_m0=dp, tolerance=tol))
             # weights
@@ -257,7 +272,7 @@ def _c10_generator(ctx, exact_part):
                     else:
                         wt, ps = out
                         wt = np.asarray(wt, dtype=np.float64)
-                        fin, shell, dE, dp = _kin_report(ps, m0, mi)
+                        fin, shell, dE, dp = _kin_report(ps, m0, mi, seq=True)
                         ok = (_shape_ok(ps, nb, N) and wt.size in (1, N) and bool(np.all((wt >= 0) & (wt <= 1))) and fin and shell <= TOL_DOUBLE and dE <= tol and dp <= tol)
                         acc.add("unflattened", ok, dict(w, N=N, max_weight=float(np.max(wt)), max_dE_over_m0=dE, max_dp_over_m0=dp, on_shell=shell))
                     ps, err = _try(lambda: gen.generate(N, force=False))
@@ -265,7 +280,7 @@ def _c10_generator(ctx, exact_part):
                         acc.add("force_false", False, dict(w, N=N, raised=err))
                     else:
                         k = int(np.asarray(ps[0]).shape[0])
-                        fin, shell, dE, dp = _kin_report(ps, m0, mi)
+                        fin, shell, dE, dp = _kin_report(ps, m0, mi, seq=True)
                         acc.add("force_false", 0 <= k <= N and _shape_ok(ps, nb, k) and fin and shell <= TOL_DOUBLE and dE <= tol and dp <= tol, dict(w, N=N, returned=k))
     acc.flush()
 
@@ -408,7 +423,7 @@ def c10_chains(ctx):
                         acc.add("gen_mc", False, dict(w, raised=err, shape=None if pf is None else list(pf.shape)))
                         continue
                     ps = [pf[j::len(mi)] for j in range(len(mi))]
-                    fin, shell, dE, dp = _kin_report(ps, m0, mi)
+                    fin, shell, dE, dp = _kin_report(ps, m0, mi, seq=True)
                     ok = fin and shell <= TOL_DOUBLE and dE <= TOL_SINGLE and dp <= TOL_SINGLE
                     if fn:
                         ok = ok and np.array_equal(np.loadtxt(fn).reshape(-1, 4), pf)
@@ -481,7 +496,7 @@ def c10_double_precision(ctx):
                     if err:
                         acc.add(name, False, dict(w, raised=err))
                         continue
-                    fin, shell, dE, dp = _kin_report(ps, m0, mi)
+                    fin, shell, dE, dp = _kin_report(ps, m0, mi, seq=True)
                     i = int(np.argmax(np.abs(sum(np.asarray(p) for p in ps)[:, 0] - m0)))
                     acc.add(name, fin and dE <= TOL_DOUBLE and dp <= TOL_DOUBLE,
                             dict(w, max_dE_over_m0=dE, max_dp_over_m0=dp, tolerance=TOL_DOUBLE, event=i, p4=[_fl(np.asarray(p)[i]) for p in ps],
@@ -506,7 +521,7 @@ def c10_double_precision(ctx):
             ctx.count(key=("gen_mc", N, seed))
             pf = np.asarray(app.gen_mc(m0, mi, N))
             ps = [pf[j::3] for j in range(3)]
-            fin, shell, dE, dp = _kin_report(ps, m0, mi)
+            fin, shell, dE, dp = _kin_report(ps, m0, mi, seq=True)
             acc.add("gen_mc/conservation", fin and dE <= TOL_DOUBLE and dp <= TOL_DOUBLE,
                     {"m0": m0, "mi": mi, "N": N, "tf_seed": s, "max_dE_over_m0": dE, "max_dp_over_m0": dp, "first_event": pf[:3].tolist()})
     for sname, chains, ro, fixed in (("s000", ["bc", "cd"], None, []), ("f4", ["cas2"], {"R_BCD": {"model": "one"}, "R_BC": {"model": "one"}}, [(("B", "C"), 1.52), (("B", "C", "D"), 2.1)])):
